@@ -209,6 +209,8 @@ func ScanFooter(options *StoreOptions, fref *FileRef, fileName string,
 			continue // For example, segment data beyond the end of file.
 		}
 
+		f.setFileRef(fref)
+
 		return f, nil
 	}
 
@@ -409,7 +411,15 @@ func (f *Footer) DecRef() {
 		f.ss = nil
 	}
 	releaseChildren := f.refs == 0
+	var fref *FileRef
+	if f.refs <= 0 {
+		fref, f.fref = f.fref, nil
+	}
 	f.m.Unlock()
+
+	if fref != nil {
+		fref.DecRef()
+	}
 
 	if releaseChildren {
 		// A footer holds one ref-count on each of its child footers.
@@ -417,6 +427,18 @@ func (f *Footer) DecRef() {
 			childFooter.DecRef()
 		}
 	}
+}
+
+// setFileRef makes a top-level footer hold a ref-count of its own on
+// its data file, so that the file stays open (and can be found, reused
+// and eventually removed) also when no collection of the footer has
+// any persisted segment that would refer to it.
+func (f *Footer) setFileRef(fref *FileRef) {
+	fref.AddRef()
+
+	f.m.Lock()
+	f.fref = fref
+	f.m.Unlock()
 }
 
 // initChildRefs gives the child footers, recursively, the ref-count
@@ -442,24 +464,6 @@ func (f *Footer) Length() uint64 {
 }
 
 // --------------------------------------------------------
-
-// anyMmapRef returns the mmapRef of some persisted segment of the
-// footer or of its child footers (they all share one file), or nil
-// when nothing is persisted.  The caller must hold a ref-count on the
-// footer.
-func (f *Footer) anyMmapRef() *mmapRef {
-	for i := range f.SegmentLocs {
-		if f.SegmentLocs[i].mref != nil {
-			return f.SegmentLocs[i].mref
-		}
-	}
-	for _, childFooter := range f.ChildFooters {
-		if mref := childFooter.anyMmapRef(); mref != nil {
-			return mref
-		}
-	}
-	return nil
-}
 
 // segmentLocs returns the current SegmentLocs and segmentStack for
 // a footer, while also incrementing the ref-count on the footer.  The
